@@ -28,15 +28,15 @@ def isReal (g : Graph α) (p : α) : Bool :=
 def isGone (g : Graph α) (p : α) : Bool :=
   match g p with | none => true | some (.term .wh) => true | _ => false
 
-/-- what the property allows `Stat` to answer -/
+/-- what the property's sentence prescribes -/
 inductive Verdict (α : Type)
-  | mustOk (id : α)      -- the first non-symlink, reached within the hop budget
-  | mustNotExist         -- a missing / deleted entry reached within the hop budget
-  | boundary             -- a missing / deleted entry is exactly one hop past the budget: any error class
-  | cycleOrDepth         -- everything else
+  | mustOk (id : α)      -- "the first non-symlink target when the chain has at most the configured number of hops"
+  | mustNotExist         -- "'not found' when the chain reaches a missing or deleted entry before the hop budget is exhausted"
+  | cycleOrDepth         -- "a cycle or depth error otherwise"
 deriving DecidableEq, Repr
 
-/-- walk the chain with `b` hops left -/
+/-- walk the chain with `b` hops left: exactly the sentence, no slack at the budget's edge — whatever
+lies one hop past the budget (a file, a deleted entry, nothing at all) is a cycle or depth error -/
 def specWalk (g : Graph α) : (b : Nat) → α → Verdict α
   | b, q =>
     match g q with
@@ -45,7 +45,7 @@ def specWalk (g : Graph α) : (b : Nat) → α → Verdict α
     | some (.term _) => .mustOk q
     | some (.link t) =>
       match b with
-      | 0 => if isGone g t then .boundary else .cycleOrDepth
+      | 0 => .cycleOrDepth
       | b+1 => specWalk g b t
 
 /-- does an observed `Stat` class meet the verdict? -/
@@ -53,9 +53,14 @@ def allowed (g : Graph α) : Verdict α → StatRes α → Bool
   | .mustOk n, .file m => n = m && g n = some (.term .file)
   | .mustOk n, .dir m => n = m && g n = some (.term .dir)
   | .mustNotExist, .notExist => true
-  | .boundary, .notExist => true
-  | .boundary, .cycle => true
-  | .boundary, .depth => true
+  | .cycleOrDepth, .cycle => true
+  | .cycleOrDepth, .depth => true
+  | _, _ => false
+
+/-- does the result of `Open` itself (not of a later `Stat` on the handle) meet the verdict? -/
+def allowedOpen : Verdict α → Res α → Bool
+  | .mustOk n, .ok m => n = m
+  | .mustNotExist, .notExist => true
   | .cycleOrDepth, .cycle => true
   | .cycleOrDepth, .depth => true
   | _, _ => false
@@ -72,11 +77,20 @@ def escapes : (d : Nat) → List String → Bool
 /-- a canonical tree key: no empty, `.` or `..` segment -/
 def canonical (key : List String) : Bool := key.all fun s => s ≠ "" && s ≠ "." && s ≠ ".."
 
-/-- what a link name denotes, lexically (as `path.Clean` reads it): `none` when it leaves the root,
-otherwise the canonical key of the target. `linkSegs` = the link name split on "/" (absolute names
-start with ""). -/
+/-- Lexical resolution of a path given as segments, starting in directory `cur` (the root is []):
+"" and "." stay, ".." goes up — leaving the root gives `none` —, a name goes down. This is the
+specification's own reading of a path; it shares nothing with the model's `cleanAbs`/`cleanRel`. -/
+def resolveLex : List String → List String → Option (List String)
+  | cur, [] => some cur
+  | cur, s :: rest =>
+    if s = "." || s = "" then resolveLex cur rest
+    else if s = ".." then (if cur = [] then none else resolveLex cur.dropLast rest)
+    else resolveLex (cur ++ [s]) rest
+
+/-- what a link name denotes: an absolute name is resolved from the root, a relative one is joined to
+the link's directory first; `none` when it leaves the root. `linkSegs` = the link name split on "/"
+(absolute names start with ""). -/
 def denotes (dir : List String) (linkSegs : List String) : Option (List String) :=
-  if linkSegs.head? = some "" then (if escapes 0 linkSegs then none else some (cleanAbs linkSegs))
-  else (if escapes dir.length linkSegs then none else some (cleanAbs (dir ++ linkSegs)))
+  if linkSegs.head? = some "" then resolveLex [] linkSegs else resolveLex [] (dir ++ linkSegs)
 
 end Scalibr.Symlink
